@@ -81,6 +81,7 @@ func init() {
 		}
 		return ints(out)
 	}
+	ops["cmap4.hdr"] = func(f Fields) string { return "ok" }
 	ops["cmap4.decode"] = func(f Fields) string {
 		return canonPanic(guard(func() string {
 			st, err := cmap.VerifDecode4(f.Hex("bytes"))
@@ -233,6 +234,7 @@ func areaCmap4(c *Ctx) {
 		b := out[3:]
 		codes := ints(probeCodes(r, m))
 		c.Case(Direct, "cmap4.spec", fmt.Sprintf("bytes=%s map=%s codes=%s", b, marg, codes), nontriv)
+		c.Case(Direct, "cmap4.hdr", "bytes="+b, nontriv)
 		c.Case(Verdict, "cmap4.decode", "bytes="+b, nontriv)
 		c.Case(Direct, "cmap4.decspec", fmt.Sprintf("bytes=%s codes=%s", b, codes), nontriv)
 		// crafted / mutated subtables for the decoder
